@@ -87,7 +87,7 @@ def run(pid, tier):
     if a2["violated"]:
         model_cex = vel.trace_steps(a2["trace"])
         log("[%s] leg A: the model of the code at HEAD violates %s (hypothesis about the code): %s" % (
-            pid, a2["violated"], " ; ".join("%s(dt=%d,a=%d)%s" % (s["op"], s["dt"], s["a"], "" if s["ok"] else "!")
+            pid, a2["violated"], " ; ".join("%s(dt=%d,a=%d)%s" % (s["op"], s["dt"], s["a"], "" if s["ok"] == 1 else "!")
                                             for s in model_cex)))
 
     # ---- leg B: state graphs of the real implementation, every edge judged by TLC
@@ -133,7 +133,7 @@ def run(pid, tier):
                     "key": key,
                     "what": "window sum of %s approvals exceeds the limit on the real implementation (case %s): %s" % (
                         "fee" if mon == "fee" else "payment", cid,
-                        " ; ".join("%s(dt=%d,a=%d)->%s" % (s["op"], s["dt"], s["a"],
+                        " ; ".join("%s(dt=%d,a=%d%s)->%s" % (s["op"], s["dt"], s["a"], ",h=%d" % s["h"] if s.get("h") else "",
                                                           {1: "ok", 0: "refused"}.get(s["ok"], "error")) for s in seq)),
                     "replay": _replay_obj(case, seq, mon)})
 
@@ -163,13 +163,18 @@ def run(pid, tier):
                     violations.append({
                         "key": vel.key_of(case["level"], mon, seq),
                         "what": "window sum exceeds the limit on the overflow-checked build (case %s): %s" % (
-                            case["id"], " ; ".join("%s(dt=%d,a=%d)->%s" % (s["op"], s["dt"], s["a"],
+                            case["id"], " ; ".join("%s(dt=%d,a=%d%s)->%s" % (s["op"], s["dt"], s["a"], ",h=%d" % s["h"] if s.get("h") else "",
                                                    {1: "ok", 0: "refused"}.get(s["ok"], "error")) for s in seq)),
                         "replay": _replay_obj(case, seq, mon)})
 
     # ---- leg C: model behaviours replayed through the implementation from a fresh signer
     nsim, depth = (40, 30) if quick else (300, 50)
     seqs, sim = vel.simulate(cases_file, "all", nsim, depth, vlib.seed(), d)
+    # plus behaviours of the retry cases only (named payment hashes re-submitted after an approval,
+    # after a refusal, with another amount, through the node and through the approver)
+    seqs_r, sim_r = vel.simulate(cases_file, "retry", max(10, nsim // 3), depth, vlib.seed() + 1, d)
+    seqs += seqs_r
+    sim["wall_s"] += sim_r["wall_s"]
     steps_file = os.path.join(d, "steps.ndjson")
     rs = vel.run_sequences(binpath, cases_file, seqs, steps_file)
     tr = vel.trace_tlc(steps_file, cases_file, d, "both", "sim")
@@ -199,7 +204,7 @@ def run(pid, tier):
                 "key": vel.key_of(case["level"], mon, seq),
                 "what": "window sum of %s approvals exceeds the limit on a replayed model behaviour (case %s), "
                         "minimised to: %s" % ("fee" if mon == "fee" else "payment", case["id"], " ; ".join(
-                            "%s(dt=%d,a=%d)->%s" % (q["op"], q["dt"], q["a"], {1: "ok", 0: "refused"}.get(q["ok"], "error"))
+                            "%s(dt=%d,a=%d%s)->%s" % (q["op"], q["dt"], q["a"], ",h=%d" % q["h"] if q.get("h") else "", {1: "ok", 0: "refused"}.get(q["ok"], "error"))
                             for q in seq)),
                 "replay": _replay_obj(case, seq, mon)})
 
@@ -226,10 +231,12 @@ def run(pid, tier):
                        "a fresh real signer",
     })
     vlib.write_evidence(pid, tier, "model_checking", cov,
-                        ["behaviour of insert() depends on time only through (t - start_sec) / interval and t % interval "
+                        ["a `true` answer for a payment hash that was answered `true` before is the same approval "
+                         "(idempotent; the amount registered for the hash stays what it was) and is counted once",
+                         "behaviour of insert() depends on time only through (t - start_sec) / interval and t % interval "
                          "(states are explored up to a translation by whole buckets and up to the lazy rotation)",
-                         "at node level the set of already approved invoices takes no part in the velocity decision of a "
-                         "request with a fresh payment hash (leg B restores only the controls; leg C restores nothing)",
+                         "at node level leg B restores the controls, the clock and the invoices entries of the NAMED payment "
+                         "hashes (retry cases); entries of fresh hashes are never looked up again; leg C restores nothing",
                          "small scope: limits 2..7 units and near u64::MAX, 1..5 buckets for the bare control, the real "
                          "Hourly/Daily specs for approver and node, time in half buckets",
                          "timestamps never decrease (ManualClock); storage backend does not fail",
